@@ -169,6 +169,24 @@ CHECKS = {
             'Trusted: sys.settrace line events in hotxlfp files + ply lexer entry points as the scheduling points (an update '
             'lost inside one source line is outside the model); the baton scheduler (one semaphore per thread).',
             'DESIGN.md §5 C03'),
+    'C13': ('exhaustive calendar sweep: every day 1900-01-01..9999-12-31 and every integer serial 61..2958465 (thorough), '
+            'every second of chosen days and every millisecond of chosen seconds, through Parser.parse against '
+            'date.toordinal arithmetic; ' + K3,
+            'The conversion has two hard-coded epoch adjustments; only a sweep of all days exposes single-day breaks. Round '
+            'trip, strict monotonicity, the Excel-1900 serial from 1 March 1900 on, day offsets and the agreement of '
+            'DATEVALUE / N / DAYS / comparisons are checked for every day (thorough) or for the boundary years plus the '
+            'month/year boundaries of every year (quick).',
+            'Trusted: datetime.date ordinals as the calendar. Before 1 March 1900 only round trip and monotonicity are '
+            'demanded. Millisecond instants are covered on a grid, not exhaustively.', 'DESIGN.md §5 C13'),
+    'C14': ('exhaustive calendar sweep of (y,m,d), all 86400 (h,m,s), all ordered date pairs inside boundary windows, all '
+            'month offsets -120000..120000 from chosen starts, the three weekday numberings, against datetime.date '
+            'arithmetic; ' + K3,
+            'YEAR/MONTH/DAY/WEEKDAY for every calendar day (thorough), HOUR/MINUTE/SECOND for every time of day, DAYS and '
+            'DATEDIF (d, m, y, ym) for every ordered pair inside windows around 1900, 2000, 2100 and for day+delta over '
+            'boundary years, EDATE for every offset in the stated range from six starts and small offsets from every day '
+            'of the boundary years.',
+            'Trusted: datetime.date arithmetic and the stated definitions of whole months/years. DATEDIF md/yd and '
+            'text/fractional arguments are not demanded.', 'DESIGN.md §5 C14'),
 }
 
 NOT_YET = 'check not built yet in this session (see DESIGN.md §5 for the planned bounded-exhaustive check)'
